@@ -122,7 +122,7 @@ def translate():
 # generator
 # ---------------------------------------------------------------------------------------------
 
-VALUES = ["s1", "s2", 7, 0, 2.5, True, "x y", None]
+VALUES = ["s1", "µm", 7, 0, 2.5, "°C é", "x y", None]      # non-ASCII text: the spec id is defined over UTF-8 bytes
 
 
 def gen_pair(rnd, d: Path, fail_at=None):
@@ -166,6 +166,8 @@ def gen_pair(rnd, d: Path, fail_at=None):
         blocks.append({"mode": "by_position", "source": src})
     else:
         cli_ctx["a"] = "cliA"
+    if rnd.random() < 0.3:
+        block1["context"]["unité"] = [rnd.choice(["µ", "Å", "plain"]) for _ in range(n)]      # an extra, unused key
     rs = {"blocks": blocks}
     if len(blocks) > 1 and rnd.random() < 0.3:
         rs["combine"] = "combinatorial"
@@ -214,16 +216,25 @@ def plan_of(rs, base_dir: Path):
 # the harness' own parse of a run_space block (for the model's RSCfg)
 # ---------------------------------------------------------------------------------------------
 
+def to_j_utf8(v):
+    """Like idgen.to_j, but scalars are rendered as RSCF v1 renders them (ensure_ascii=False)."""
+    if isinstance(v, dict):
+        return {"o": [[str(k), to_j_utf8(x)] for k, x in v.items()]}
+    if isinstance(v, (list, tuple)):
+        return {"a": [to_j_utf8(x) for x in v]}
+    return {"t": json.dumps(v, ensure_ascii=False)}
+
+
 def parse_rs(rs):
     blocks = []
     for b in rs.get("blocks") or []:
         src = b.get("source")
         blocks.append({"mode": str(b.get("mode", "")).lower(),
-                       "context": [[str(k), idgen.to_j(list(v))] for k, v in (b.get("context") or {}).items()],
+                       "context": [[str(k), to_j_utf8(list(v))] for k, v in (b.get("context") or {}).items()],
                        "source": None if src is None else {
                            "format": str(src.get("format", "")).lower(), "path": src["path"],
                            "select": None if src.get("select") is None else list(src["select"]),
-                           "rename": [[str(k), idgen.to_j(str(v))] for k, v in (src.get("rename") or {}).items()],
+                           "rename": [[str(k), to_j_utf8(str(v))] for k, v in (src.get("rename") or {}).items()],
                            "mode": str(src.get("mode", "by_position")).lower()}})
     return {"combine": str(rs.get("combine", "combinatorial")).lower(), "maxRuns": int(rs.get("max_runs", 1000)),
             "dryRun": bool(rs.get("dry_run", False)), "blocks": blocks}
@@ -522,7 +533,7 @@ def run(tier: str) -> int:
                                       "the run-space spec id printed by `semantiva inspect` differs from the one in run_space_start",
                                       dict(pub, inspect=insp, trace=spec_id))
                 if drv is not None:
-                    ans = drv.run([{"m": "c09.specPre", "id": 0, "cfg": parse_rs(rs), "raw": idgen.to_j(rs)}])[0]
+                    ans = drv.run([{"m": "c09.specPre", "id": 0, "cfg": parse_rs(rs), "raw": to_j_utf8(rs)}])[0]
                     if "err" in ans:
                         rep.add_broken(f"correspondence C09: driver error {ans['err']}")
                         drv = None
